@@ -10,6 +10,7 @@ and both __lt__ compare score < score in the same orientation.
 Not decided: behaviour for items whose < is not a strict weak order.
 """
 import ast
+import re
 
 from mmsa import au, cfg as cfgmod, classfx, dataflow
 from mmsa.core import Undecided, norm, walk_no_nested
@@ -119,7 +120,8 @@ def check_push(repo, rep):
 
   def queue_of(node, e):
     t, _ = rd.canon(node, e)
-    return t
+    # `d.setdefault(k, [])` denotes the queue d[k] (created empty on first use, as the defaultdict does)
+    return re.sub(r'(%s\.%s)\.setdefault\((\w+), (\[\]|list\(\))\)' % (re.escape(selfn), re.escape(resultfield)), r'\1[\2]', t)
 
   # enumerate paths entry -> exit; interpret
   n_paths = 0
@@ -130,6 +132,7 @@ def check_push(repo, rep):
       word = []
       feasible = True
       unknown = None
+      fenv = {}             # locals naming a heap operation on this path: push = heapq.heappush
       other_guards = []     # guards that are not about the fill level: both outcomes are followed
       raised = path[-1][0] is g.raise_exit
       for i, (n, lab) in enumerate(path):
@@ -137,6 +140,7 @@ def check_push(repo, rep):
         if n.kind == 'test':
           # resolve aliases of the queue inside the guard
           e, _ = rd.expand(n, n.expr)
+          e = ast.parse(re.sub(r'(%s\.%s)\.setdefault\((\w+), (\[\]|list\(\))\)' % (re.escape(selfn), re.escape(resultfield)), r'\1[\2]', norm(e)), mode='eval').body
           r = _rel_guard(e, {qcanon}, sizeexprs)
           if r is not None and r[0] == 'size-only':
             # capacity >= 1 is assumed: `size <= 0` is never true, `size >= 1` always; anything else is left open
@@ -155,8 +159,16 @@ def check_push(repo, rep):
             feasible = False
             break
         elif n.kind in ('stmt', 'return'):
+          if isinstance(n.ast, ast.Assign) and len(n.ast.targets) == 1 and isinstance(n.ast.targets[0], ast.Name):
+            lnv = au.lib_name(mod, n.ast.value) if isinstance(n.ast.value, (ast.Attribute, ast.Name)) else None
+            if lnv in HEAP_OPS:
+              fenv[n.ast.targets[0].id] = lnv
+            else:
+              fenv.pop(n.ast.targets[0].id, None)
           for call in au.calls_in(n.ast):
             ln = au.lib_name(mod, call.func)
+            if isinstance(call.func, ast.Name) and call.func.id in fenv:
+              ln = fenv[call.func.id]
             if ln in HEAP_OPS:
               q = queue_of(n, call.args[0]) if call.args else ''
               if q != qcanon:
